@@ -222,6 +222,8 @@ def configs(tier, seed):
     for which in ('k0', 'kG0', 'kM', 'kAx', 'kAy', 'cA'):
         out.append({'rel': 'b', 'm': mn[0], 'n': mn[1], 'which': which, 'group': '(b) cylinder(1/r=0)=plate:%s' % which})
         out.append({'rel': 'c', 'm': 3, 'n': 2, 'which': which, 'group': '(c) w-only=block:%s' % which})
+        out.append({'rel': 'c', 'm': 1, 'n': 5, 'which': which, 'group': '(c) w-only=block:%s' % which})
+        out.append({'rel': 'b', 'm': 4, 'n': 1, 'which': which, 'group': '(b) cylinder(1/r=0)=plate:%s' % which})
         if not quick:
             out.append({'rel': 'b', 'm': 3, 'n': 3, 'which': which, 'group': '(b) cylinder(1/r=0)=plate:%s' % which})
             out.append({'rel': 'c', 'm': 4, 'n': 4, 'which': which, 'group': '(c) w-only=block:%s' % which})
